@@ -145,6 +145,9 @@ let dispatch cmd r =
   | "hitmiss" -> let f = next_arr r in let t = next_arr r in out_lists [hitmiss f t; hitmiss_spec f t]
   | "cwatershed" -> let wl = next_int r = 1 in let s = next_arr r in let m = next_arr r in let bc = next_arr r in
       let (a, b) = cwatershed s m bc wl in let (c, d) = flood_spec s m bc wl in out_lists [a; b; c; d]
+  | "distance" -> let a = next_arr r in out_lists [distance a; distance_spec a]
+  | "gvoronoi" -> let a = next_arr r in out_list (gvoronoi a)
+  | "dt1d" -> let f = next_list r in out_lists [dt1d f; minplus1d f]
   | _ -> failwith ("unknown command " ^ cmd)
 
 let () =
